@@ -2,6 +2,8 @@ SPECIFICATION Spec
 INVARIANT Sane
 INVARIANT NoException
 INVARIANT ImagesWellFormed
+INVARIANT PortIsLine
+INVARIANT PortWindowCoversLine
 INVARIANT Functional
 INVARIANT InStaWindow
 INVARIANT OnGrid
